@@ -61,6 +61,6 @@ static void Handle(const json& c, vh::Report& r) {
 }
 
 int main(int argc, char** argv) {
-  vh::IsoOptions iso; iso.faultProperty = "C08"; iso.batch = 2000; iso.watchdogSeconds = 10;
+  vh::IsoOptions iso; iso.faultProperty = "C08"; iso.batch = 2000; iso.watchdogSeconds = 90;
   return vh::Main(argc, argv, Handle, true, iso);
 }
